@@ -436,6 +436,15 @@ def bDischarging : Bytes := [100, 105, 115] ++ bCharging
 def bAC0 : Bytes := [65, 67, 48]
 def bAC : Bytes := [65, 67]
 
+/-- `percent = int(cat(root + "/capacity", fallback=-1)); if percent == -1: return None` -/
+def batCapacity (b : Supply) : Res (Option Rat) :=
+  match b.capacity.readOpt with
+  | none => .ok none                              -- fallback -1 → return None
+  | some c =>
+    match pyInt? c with
+    | none => .error .valueError
+    | some p => if p = -1 then .ok none else .ok (some (p : Rat))
+
 def batPercent (cfg : Cfg) (b : Supply) (energyNow energyFull : Option MVal) : Res (Option Rat) :=
   match energyFull, energyNow with
   | some full, some now =>
@@ -443,13 +452,7 @@ def batPercent (cfg : Cfg) (b : Supply) (energyNow energyFull : Option MVal) : R
     | .int n, .int f =>
       if f = 0 then .ok (some 0) else .ok (some ((cfg.pct : Rat) * (n : Rat) / (f : Rat)))
     | _, _ => .error .typeError
-  | _, _ =>
-    match b.capacity.readOpt with
-    | none => .ok none                              -- fallback -1 → return None
-    | some c =>
-      match pyInt? c with
-      | none => .error .valueError
-      | some p => if p = -1 then .ok none else .ok (some (p : Rat))
+  | _, _ => batCapacity b
 
 def batPlugged (cfg : Cfg) (ss : List Supply) (b : Supply) : Option Bool :=
   let onl (n : Bytes) : FileState := match findSupply ss n with | some s => s.online | none => .absent
@@ -586,25 +589,32 @@ def readKhz (cfg : Cfg) (f : FileState) : Res Rat :=
     | none => .error .valueError
     | some i => .ok ((i : Rat) / (cfg.khz : Rat))
 
+/-- `curr` of the sysfs variant before `int(curr) / 1000`: the cpuinfo MHz value × 1000 (a float,
+    then truncated by `int()`), else `scaling_cur_freq`, else `cpuinfo_cur_freq`, else None -/
+def policyCurr (cfg : Cfg) (useInfo : Option Rat) (p : Policy) : Option (Res Int) :=
+  match useInfo with
+  | some mhz => some (.ok (truncRat (mhz * (cfg.khz : Rat))))
+  | none =>
+    match p.scalingCur.readOpt with
+    | some b => some (ofOpt .valueError (pyInt? b))
+    | none =>
+      match p.cpuinfoCur.readOpt with
+      | some b => some (ofOpt .valueError (pyInt? b))
+      | none => none
+
+/-- `/sys/devices/system/cpu/cpu{i}/online` -/
+def cpuOnlineFile (online : List (Nat × FileState)) (i : Nat) : FileState :=
+  match online.lookup i with
+  | some f => f
+  | none => .absent
+
 /-- loop body of the sysfs variant; `i` = position in the sorted list, `useInfo` = the cpuinfo
     value to take instead of `scaling_cur_freq` -/
 def policyFreq (cfg : Cfg) (online : List (Nat × FileState)) (i : Nat) (useInfo : Option Rat) (p : Policy) :
     Res Freq :=
-  -- `curr`: float from cpuinfo (× 1000), or bytes, or None
-  let curr : Option (Res Int) :=
-    match useInfo with
-    | some mhz => some (.ok (truncRat (mhz * (cfg.khz : Rat))))
-    | none =>
-      match p.scalingCur.readOpt with
-      | some b => some (ofOpt .valueError (pyInt? b))
-      | none =>
-        match p.cpuinfoCur.readOpt with
-        | some b => some (ofOpt .valueError (pyInt? b))
-        | none => none
-  match curr with
+  match policyCurr cfg useInfo p with
   | none =>
-    let onl := match online.lookup i with | some f => f | none => .absent
-    if onl.readOpt = some bZeroNl then .ok ⟨0, 0, 0⟩ else .error .notImplemented
+    if (cpuOnlineFile online i).readOpt = some bZeroNl then .ok ⟨0, 0, 0⟩ else .error .notImplemented
   | some (.error e) => .error e
   | some (.ok khz) =>
     match readKhz cfg p.scalingMax with
@@ -614,12 +624,17 @@ def policyFreq (cfg : Cfg) (online : List (Nat × FileState)) (i : Nat) (useInfo
       | .error e => .error e
       | .ok mn => .ok ⟨(khz : Rat) / (cfg.khz : Rat), mn, mx⟩
 
+/-- `cpuinfo_freqs[i]` when `len(paths) == len(cpuinfo_freqs)` -/
+def infoAt (infos : Option (List Rat)) (i : Nat) : Option Rat :=
+  match infos with
+  | some l => l[i]?
+  | none => none
+
 def policyLoop (cfg : Cfg) (online : List (Nat × FileState)) (infos : Option (List Rat)) :
     Nat → List Policy → Res (List Freq)
   | _, [] => .ok []
   | i, p :: ps =>
-    let useInfo := match infos with | some l => l[i]? | none => none
-    match policyFreq cfg online i useInfo p with
+    match policyFreq cfg online i (infoAt infos i) p with
     | .error e => .error e
     | .ok f =>
       match policyLoop cfg online infos (i + 1) ps with
